@@ -309,6 +309,10 @@ func c08Scenario(pattern string, jitter float64, jname string) vx.Scenario {
 					w.lists = append(w.lists, listReply{kind: "err"})
 				} else if c == 'E' {
 					w.lists = append(w.lists, listReply{kind: "500"})
+				} else if c == 'Z' {
+					w.lists = append(w.lists, listReply{kind: "503empty"})
+				} else if c == 'U' {
+					w.lists = append(w.lists, listReply{kind: "401empty"})
 				} else {
 					w.lists = append(w.lists, listReply{ids: []string{}})
 				}
@@ -372,7 +376,32 @@ func c08Scenarios(th bool) []vx.Scenario {
 				out = append(out, c08Scenario(sb.String(), jit[jn], jn))
 			}
 		}
+		// every kind of failing answer: transport error, 500 with a body, bare 503 / 401 with an empty body
+		if jn == "mid" || th {
+			kinds := "FEZUS"
+			l := 4
+			if th {
+				l = 5
+			}
+			total := 1
+			for i := 0; i < l; i++ {
+				total *= len(kinds)
+			}
+			for m := 0; m < total; m++ {
+				var sb strings.Builder
+				x := m
+				for b := 0; b < l; b++ {
+					sb.WriteByte(kinds[x%len(kinds)])
+					x /= len(kinds)
+				}
+				if strings.ContainsAny(sb.String(), "EZU") {
+					out = append(out, c08Scenario(sb.String(), jit[jn], jn))
+				}
+			}
+		}
 		// long runs: reach and stay at the cap, recover, fail again; 5xx answers count as failures too
+		out = append(out, c08Scenario(strings.Repeat("F", 22)+"S"+"FFF", jit[jn], jn))
+		out = append(out, c08Scenario(strings.Repeat("Z", 18)+"S"+"ZF", jit[jn], jn))
 		out = append(out, c08Scenario(strings.Repeat("F", 16)+"S"+"FFF", jit[jn], jn))
 		out = append(out, c08Scenario(strings.Repeat("E", 13)+"SS"+"EF", jit[jn], jn))
 		if th {
